@@ -1,7 +1,8 @@
 """C01 — battery power distribution conserves the requested power.
 
 Oracle on the REAL `BatteryDistributionAlgorithm.distribute_power` (run on exact rationals and on floats) for
-consistent data and admitted requests, independent of the Lean model:
+consistent data and requests admitted by the bounds the pool ADVERTISES (PowerBoundsCalculator; the reference
+formula is sampled against the real calculator), independent of the Lean model:
   sum        : set-points + reported remainder = request (1e-6 relative to max(1, |request|));
   sign       : every set-point has the sign of the request or is zero;
   remainder  : the remainder has the request's sign and does not exceed it in magnitude;
